@@ -17,6 +17,7 @@
 -/
 import Gama.Lemmas.LS
 import Gama.Lemmas.LS.Example
+import Gama.Lemmas.MinX
 namespace Gama.Props.C08
 open Gama Gama.LS Matrix Finset
 
@@ -152,5 +153,82 @@ example : ∃ (pts : Fin 3 → ℚ × ℚ) (obs : Fin 3 → Fin 3 × Fin 3) (cs 
           = (cs k).2 * ((pts (obs k).2).1 - (pts (obs k).1).1)) ∧ (∀ k, cs k ≠ (0, 0)) :=
   ⟨![(0, 0), (3, 0), (0, 4)], ![(0, 1), (0, 2), (1, 2)], ![(1, 0), (0, 1), (-3/5, 4/5)],
    by intro k; fin_cases k <;> simp <;> norm_num, by intro k; fin_cases k <;> simp⟩
+
+/-! ### the list of constrained coordinates handed to the solver (`LocalNetwork::project_equations`) -/
+
+section MinX
+open Gama.MinX
+
+/-- **the regularisation list is the set of constrained coordinates of the CURRENT pass.**
+    For every network state `st` (whatever indexes, `min_x_`, `min_n_` earlier calls left behind) and every
+    history `steps` (between two calls the rest of the program changes point statuses and the world —
+    outlying observations removed, points removed by `null_space` / the huge-covariance pass,
+    re-linearisation — in any way):
+    (1) every call of `project_equations()` completes within the fuel `#points + 1`;
+    (2) what the calls hand over is what they would hand over on a FRESH network with the current
+        statuses (no stale list: a function of the current pass only);
+    (3) for each completed call, with `s` the numbering of its last inner call computed from scratch:
+        the number of unknowns is `s.maxn`; the list has length `min_n_`; it contains exactly the non-zero
+        indexes `s` gives to the constrained coordinates, in `PD` order (y, x, then z of each point);
+        its entries are distinct and lie in `1..n` (what the solver theorems assume of `Reg.subset`);
+        and it is what stays in `min_x_` / `min_n_`. -/
+theorem C08_minx_is_constrained (st : St) (steps : List Step) :
+    (∀ r ∈ run projectEquations st steps, r.isSome = true)
+    ∧ run projectEquations st steps = runFresh st.pts steps
+    ∧ ∀ (W : World) (fuel : Nat) (st0 : St) (rm : List String) (st2 : St) (o : Out),
+        projectEquations W fuel st0 rm = some (st2, o) →
+        let s := numbering st2.pts (W.rev st2.pts)
+        o.unknowns = s.maxn ∧ o.minx.length = o.minn
+          ∧ (∀ i, i ∈ o.minx ↔ ∃ u, consCoord st2.pts u = true ∧ s.idx u ≠ 0 ∧ s.idx u = i)
+          ∧ o.minx = fillMin s.idx st2.pts
+          ∧ (∀ i ∈ o.minx, 1 ≤ i ∧ i ≤ o.unknowns) ∧ o.minx.Nodup
+          ∧ st2.minx = o.minx ∧ st2.minn = o.minn := by
+  refine ⟨?_, run_eq_runFresh steps st, ?_⟩
+  · rw [run_eq_runFresh]; exact runFresh_all_some steps st.pts
+  · intro W fuel st0 rm st2 o h
+    obtain ⟨h1, h2, _, h4, h5, h6, h7, h8, h9⟩ := pe_spec W fuel st0 rm st2 o h
+    exact ⟨h1, h4, h7, h2, h5, h6, h8, h9⟩
+
+/-- **another observation order permutes the list consistently.**  Two passes over the same statuses whose
+    observation lists are permutations of each other (more generally: contain the same observations) have
+    the same number `n` of unknowns, and there is a bijection `σ` of `1..n` (with `σ 0 = 0`) that maps the
+    index of EVERY unknown in the first numbering to its index in the second, and the regularisation list
+    of the first pass, entry by entry, to that of the second (same length) — so by LS5
+    (`IsLSSolution.perm`: a permutation of the columns with `S` transported) both passes pose the same
+    adjustment. -/
+theorem C08_minx_perm_invariant (pts : List PtS) (obs obs' : List Obs) (idx0 idx0' : Unk → Nat)
+    (h : obs'.Perm obs) :
+    let s := number pts obs (reset pts idx0)
+    let s' := number pts obs' (reset pts idx0')
+    s'.maxn = s.maxn ∧ ∃ σ : Nat → Nat, σ 0 = 0
+      ∧ (∀ i, 1 ≤ i → i ≤ s.maxn → 1 ≤ σ i ∧ σ i ≤ s.maxn)
+      ∧ (∀ i j, 1 ≤ i → i ≤ s.maxn → 1 ≤ j → j ≤ s.maxn → σ i = σ j → i = j)
+      ∧ (∀ u, live pts u = true → s'.idx u = σ (s.idx u))
+      ∧ fillMin s'.idx pts = (fillMin s.idx pts).map σ
+      ∧ countMin s'.idx pts = countMin s.idx pts :=
+  renumber pts obs obs' idx0 idx0' fun _ => h.mem_iff
+
+
+
+/-- non-vacuity: a two-call history in which the list changes while keeping its length -/
+example : run projectEquations (St.fresh MinX.Ex.pts) MinX.Ex.steps
+    = [some ⟨4, 4, [2, 1, 4, 3], []⟩, some ⟨4, 4, [4, 3, 2, 1], []⟩] := by decide
+
+example : [MinX.Ex.dBC, MinX.Ex.dAC, MinX.Ex.dAB].Perm [MinX.Ex.dAB, MinX.Ex.dBC, MinX.Ex.dAC] := by decide
+
+/-- **the theorem distinguishes the code from its stale variant**: "rebuild `min_x_` only when its length
+    changed" (`projectEquationsStale`, NOT the code) hands the solver the list of the previous numbering —
+    `C08_minx_is_constrained` (2) is false for it -/
+theorem C08_minx_stale_is_wrong :
+    ∃ (st : St) (steps : List Step), run projectEquationsStale st steps ≠ runFresh st.pts steps
+      ∧ run projectEquationsStale st steps = [some ⟨4, 4, [2, 1, 4, 3], []⟩, some ⟨4, 4, [2, 1, 4, 3], []⟩] := by
+  have h1 : run projectEquationsStale (St.fresh MinX.Ex.pts) MinX.Ex.steps
+      = [some ⟨4, 4, [2, 1, 4, 3], []⟩, some ⟨4, 4, [2, 1, 4, 3], []⟩] := by decide
+  have h2 : runFresh (St.fresh MinX.Ex.pts).pts MinX.Ex.steps
+      = [some ⟨4, 4, [2, 1, 4, 3], []⟩, some ⟨4, 4, [4, 3, 2, 1], []⟩] := by decide
+  refine ⟨St.fresh MinX.Ex.pts, MinX.Ex.steps, ?_, h1⟩
+  rw [h1, h2]; decide
+
+end MinX
 
 end Gama.Props.C08
